@@ -199,10 +199,12 @@ def oracle(seed=0, tier="quick", aimed=None):
                         "rhs": f.tolist()}}
             if dim == 3:
                 F = r.normal(size=(3,) + shape).astype(real_t)
-                out = np.zeros_like(F)
+                if ci % 2 == 1:
+                    F[ci % 3] = 0                              # a component with nothing to solve for
+                out = r.normal(size=F.shape).astype(real_t)    # output arrays start dirty (the simulator reuses its stream function array)
                 ps.vector_field_solve(solution_vector_field=out, rhs_vector_field=F)
                 for c in range(3):
-                    s1 = np.zeros(shape, dtype=real_t)
+                    s1 = r.normal(size=shape).astype(real_t)
                     ps.solve(solution_field=s1, rhs_field=F[c])
                     cases += 1
                     if not np.array_equal(s1, out[c]):
